@@ -128,6 +128,95 @@ var descSwapSides bool
 
 var pairSideRE = regexp.MustCompile(`[A-Za-z]+(Pair|State)\.(a|b)$`)
 
+// keysOfMap: v is the list of keys of a map, in whatever way it was made:
+// slices.Sorted(maps.Keys(m)), slices.Collect(maps.Keys(m)), or a local slice that collects the
+// keys in a `for k := range m` loop (and is sorted afterwards).  Returns m.
+func keysOfMap(v ssa.Value, d int) ssa.Value {
+	if d > 6 {
+		return nil
+	}
+	switch x := v.(type) {
+	case *ssa.Call:
+		f := x.Common().StaticCallee()
+		if f == nil || len(x.Common().Args) == 0 {
+			return nil
+		}
+		n := rawShortName(f)
+		if i := strings.Index(n, "["); i > 0 {
+			n = n[:i]
+		}
+		switch n {
+		case "slices.Sorted", "slices.Collect":
+			return keysOfMap(x.Common().Args[0], d+1)
+		case "maps.Keys":
+			return x.Common().Args[0]
+		}
+	case *ssa.Slice:
+		return keysOfMap(x.X, d+1)
+	case *ssa.Phi:
+		// every edge is an empty list or an append of a range key of one map to the same variable
+		var m ssa.Value
+		seen := map[ssa.Value]bool{}
+		var visit func(e ssa.Value, d int) bool
+		visit = func(e ssa.Value, d int) bool {
+			if seen[e] || d > 8 {
+				return true
+			}
+			seen[e] = true
+			switch y := e.(type) {
+			case *ssa.Const, *ssa.MakeSlice:
+				return true
+			case *ssa.Slice:
+				return visit(y.X, d+1)
+			case *ssa.Alloc:
+				return true // make([]T, 0, n) spelled as new array + slice
+			case *ssa.Phi:
+				for _, e2 := range y.Edges {
+					if !visit(e2, d+1) {
+						return false
+					}
+				}
+				return true
+			case *ssa.Call:
+				if c, ok := isAppendCall(y); ok && len(c.Common().Args) == 2 {
+					if !visit(c.Common().Args[0], d+1) {
+						return false
+					}
+					el, ok := sliceLitElems(c.Common().Args[1])
+					if !ok || len(el) != 1 {
+						return false
+					}
+					ex, ok := el[0].(*ssa.Extract)
+					if !ok || ex.Index != 1 {
+						return false
+					}
+					nx, ok := ex.Tuple.(*ssa.Next)
+					if !ok {
+						return false
+					}
+					rg, ok := nx.Iter.(*ssa.Range)
+					if !ok {
+						return false
+					}
+					if _, isMap := rg.X.Type().Underlying().(*types.Map); !isMap {
+						return false
+					}
+					if m != nil && m != rg.X {
+						return false
+					}
+					m = rg.X
+					return true
+				}
+			}
+			return false
+		}
+		if visit(x, 0) {
+			return m
+		}
+	}
+	return nil
+}
+
 // descParamSubst: while the truth conditions of a predicate helper are described for one of
 // its call sites, its parameters are described by the arguments of that call.
 var descParamSubst = map[*ssa.Parameter]string{}
@@ -181,6 +270,11 @@ func descValue(v ssa.Value, depth int) string {
 				return "global " + g.Name()
 			}
 			if ia, ok := x.X.(*ssa.IndexAddr); ok {
+				// an element of a list built on the spot (sorted keys, a collected slice): how the
+				// list was built is not part of the description
+				if m := keysOfMap(ia.X, 0); m != nil {
+					return "key-of(" + descValue(m, depth+1) + ")"
+				}
 				return descValue(ia.X, depth+1) + "[]"
 			}
 			return "var:" + typeDesc(x.Type())
@@ -357,11 +451,72 @@ func negOp(op token.Token) token.Token {
 	return op
 }
 
+// indexAsContains: `strings.Index(s, sub) >= 0` (also `!= -1`, `> -1`; and `< 0`, `== -1`,
+// `<= -1` for the negation) is strings.Contains(s, sub).  Returns the Index call and whether
+// the condition being true means "contained".
+func indexAsContains(c ssa.Value) (*ssa.Call, bool, bool) {
+	bo, ok := c.(*ssa.BinOp)
+	if !ok {
+		return nil, false, false
+	}
+	call, ok := bo.X.(*ssa.Call)
+	k, ok2 := bo.Y.(*ssa.Const)
+	op := bo.Op
+	if !ok || !ok2 {
+		call, ok = bo.Y.(*ssa.Call)
+		k, ok2 = bo.X.(*ssa.Const)
+		if !ok || !ok2 {
+			return nil, false, false
+		}
+		switch op { // const OP call  ->  call OP' const
+		case token.LSS:
+			op = token.GTR
+		case token.GTR:
+			op = token.LSS
+		case token.LEQ:
+			op = token.GEQ
+		case token.GEQ:
+			op = token.LEQ
+		}
+	}
+	f := call.Common().StaticCallee()
+	if f == nil || k.Value == nil {
+		return nil, false, false
+	}
+	switch rawShortName(f) {
+	case "strings.Index", "bytes.Index":
+	default:
+		return nil, false, false
+	}
+	n, isInt := constant.Int64Val(constant.ToInt(k.Value))
+	if !isInt {
+		return nil, false, false
+	}
+	switch {
+	case op == token.GEQ && n == 0, op == token.GTR && n == -1, op == token.NEQ && n == -1:
+		return call, true, true
+	case op == token.LSS && n == 0, op == token.LEQ && n == -1, op == token.EQL && n == -1:
+		return call, false, true
+	}
+	return nil, false, false
+}
+
 // descCond: normalised text of "cond is <val>".
 func descCond(cond ssa.Value, val bool) string {
 	c, neg := stripNot(cond)
 	if neg {
 		val = !val
+	}
+	if call, contained, ok := indexAsContains(c); ok {
+		name := "strings.Contains"
+		if rawShortName(call.Common().StaticCallee()) == "bytes.Index" {
+			name = "bytes.Contains"
+		}
+		d := name + "(" + descValue(call.Common().Args[0], 2) + "," + descValue(call.Common().Args[1], 2) + ")"
+		if contained != val {
+			return "!" + d
+		}
+		return d
 	}
 	if bo, ok := c.(*ssa.BinOp); ok {
 		switch bo.Op {
